@@ -26,3 +26,4 @@ import NetflowModel.Props.C16b
 import NetflowModel.Props.C17
 import NetflowModel.Props.C17b
 import NetflowModel.Props.H1
+import NetflowModel.Props.Ctl
